@@ -728,6 +728,14 @@ func c16errs(p *Prog, r *Report) {
 		return strings.HasPrefix(n, "Set") || strings.HasPrefix(n, "Add") || strings.HasPrefix(n, "dbSet") || n == "Reset" || strings.HasPrefix(n, "addParticipant")
 	}
 	n := 0
+	// resolve the anchors of the exemption table first, so that a function whose body moved into a new
+	// helper is known under its reference name
+	for k := range storeErrExempt {
+		name := k[:strings.Index(k, ":")]
+		p.Func(HG, "Hashgraph", name)
+		p.Func(HG, "BadgerStore", name)
+		p.Func(HG, "", name)
+	}
 	for _, fn := range p.Mod {
 		pp := fnPkgPath(fn)
 		if !strings.HasSuffix(pp, "/"+HG) && !strings.HasSuffix(pp, "/"+NODE) {
@@ -749,7 +757,11 @@ func c16errs(p *Prog, r *Report) {
 				}
 				n++
 				used := c.Referrers() != nil && len(*c.Referrers()) > 0
-				key := top.Name() + ":" + f.Name()
+				topName := top.Name()
+				if o, ok := p.forwardedFrom[top]; ok {
+					topName = o
+				}
+				key := topName + ":" + f.Name()
 				if why, ex := storeErrExempt[key]; ex && !used {
 					r.Ok(rule, key, p.ipos(c), fnName(fn), "error not looked at by design: "+why)
 					continue
